@@ -592,9 +592,16 @@ def check_schedule(rep, prog):
                 okc = isinstance(tg, ast.Tuple) and [e.id for e in tg.elts] == ['ii', 'jj', 'sfs'] and body == 'self.spectra[ii][jj] = sfs'
         rep.ob('R-TPL', '%s collector' % cls, okc, ast.unparse(coll[0])[:90] if coll else 'no collector loop', m.rel, coll[0].lineno if coll else mp.lineno,
                what='every result is destructured (an exception object cannot be unpacked: it is reported) and stored at its own index, not by arrival order')
-        t = ast.unparse(mp)
-        okj = 'for p in pool:\n                p.join()' in t or 'p.join()' in t
-        sentinel = 'for jj in range(cpus + gpus):\n                work.put(None)' in t or 'work.put(None)' in t
+        # (by construct, not by spelling: a loop over the pool that joins its element; a loop that runs once per worker and puts None)
+        okj = sentinel = False
+        for lp_ in [n for n in ast.walk(mp) if isinstance(n, ast.For)]:
+            it_txt = ast.unparse(lp_.iter).replace(' ', '')
+            if it_txt == 'pool' and isinstance(lp_.target, ast.Name):
+                okj = okj or any(isinstance(c_, ast.Call) and isinstance(c_.func, ast.Attribute) and c_.func.attr == 'join' and isinstance(c_.func.value, ast.Name) and c_.func.value.id == lp_.target.id
+                                 for b_ in lp_.body for c_ in ast.walk(b_))
+            if it_txt in ('range(cpus+gpus)', 'range(gpus+cpus)', 'pool', 'range(len(pool))'):
+                sentinel = sentinel or any(isinstance(c_, ast.Call) and dotted(c_.func) == 'work.put' and len(c_.args) == 1 and isinstance(c_.args[0], ast.Constant) and c_.args[0].value is None
+                                           for b_ in lp_.body for c_ in ast.walk(b_))
         rep.ob('R-TPL', '%s shutdown' % cls, okj and sentinel, 'one None sentinel per worker; all workers joined before collecting', m.rel, mp.lineno, what='all workers finish before results are read')
     # split-job predicate identical in both builders
     m2 = prog.mod(C2)
